@@ -471,6 +471,9 @@ func famPfScope(o *Out, r *RNG, thorough bool) {
 			{"root", prefix + "/"}, {"root", prefix},
 			{"principal", h.principal}, {"principal", prefix + "/other/"}, {"principal", prefix + "/u"},
 			{"homeSet", h.homeSet}, {"homeSet", prefix + "/u/other/"}, {"homeSet", prefix + "/other/cal/"},
+			// string prefixes and extensions of the user's own paths that name other resources at the same depth
+			{"homeSet", prefix + "/u/c"}, {"homeSet", prefix + "/u/ca"}, {"homeSet", prefix + "/u/cal"}, {"homeSet", prefix + "/u/cal2/"}, {"homeSet", prefix + "/u/cal2"},
+			{"principal", prefix + "/u2/"}, {"principal", prefix + "/U/"},
 			{"collection", h.colls[0]}, {"collection", h.colls[2]}, {"collection", prefix + "/u/cal/missing/"},
 			{"object", h.objs[h.colls[0]][1]}, {"object", prefix + "/u/cal/one/missing.ics"},
 			{"deeper", prefix + "/u/cal/one/a.ics/x"},
